@@ -28,7 +28,7 @@ from bounded.oracles_linalg import (
 
 _DOMAIN = (
     "2-D arrays over Z2, U1, Z2Z2, U1U1, Z4; 4 direction patterns; every reachable charge; blocks 1x1 .. 4x4, "
-    "rank-deficient, zero and missing blocks; float64/complex128; matrices fused from rank-3/4 arrays; degenerate spectra"
+    "rank-deficient, zero and missing blocks; float64/complex128, float32/complex64 (tol 1e-4), blocks of mixed element type; matrices fused from rank-3/4 arrays; degenerate spectra"
 )
 CONTRACTS = {
     "C12.singular_values": (_DOMAIN + "; abelian and fermionic (pending signs)", "systematic small scope + seeded random; multiset and per-charge comparison with numpy svd of the dense matrix; tol 1e-9"),
@@ -45,6 +45,18 @@ def gen_cases(tier, seed):
         yield {"contract": "C12.norm", "m": m}
     for m in degenerate_matrices():
         yield {"contract": "C12.singular_values", "m": m}
+    # single precision (tol 1e-4) and blocks of mixed element type (first stored block real, the others complex:
+    # what  real_array + complex_array  returns when the real operand alone stores the first sector)
+    rng = np.random.default_rng([12, 2])
+    for k in range(300 if quick else 3000):
+        m = random_matrix(rng, dtypes=("float32", "complex64"), degenerate=0.1)
+        yield {"contract": "C12.singular_values" if k % 2 else "C12.norm", "m": m}
+    for k in range(300 if quick else 3000):
+        m = random_matrix(rng, dtypes=("complex128",), fused=False)
+        if m["spec"].get("sectors") and (m["spec"]["sectors"] == "all" or len(m["spec"]["sectors"]) > 1) and not m.get("post") and not m["spec"].get("pre_ops"):
+            m["spec"]["mixed_block_dtypes"] = True
+            yield {"contract": "C12.norm", "m": m}
+            yield {"contract": "C12.singular_values", "m": m}
     rng = np.random.default_rng([12, 0])
     for sym in ALL_SYMS:
         for dtype in ("float64", "complex128"):
